@@ -5,6 +5,7 @@ import json
 import random
 
 from .. import apiscen as AS
+from .. import dsim
 from .. import coqio
 from ..common import Check, ct, run_cases_sharded
 from ..conntrace import coq_msg
@@ -44,6 +45,15 @@ def run_case(case, infos, devs):
                     continue
                 v = AS.valid_value(rng, ff[0])
                 s.dev.emit_at(rng.randrange(0, 12_000_000), f"@{cid}:{fn}={v}\r\n".encode("utf-8"))
+        if case.get("check_first"):
+            # the application first asks the same object whether this is a YNCA device at all
+            try:
+                api.connection_check()
+            except dsim.SimAbort:
+                raise
+            except BaseException as e:  # noqa
+                s.extra["connection_check"] = f"{type(e).__name__}: {e}"
+            s.sleep(0.2)
         s.call(api.initialize)
         s.acc = AS.accessor_ids(api)
         s.values = {}
@@ -183,7 +193,7 @@ def run(chk: Check):
         for k in range(1 if chk.tier == "quick" else 40):
             cases.append({"device": name, "latency_us": rng.choice([20000, 60000, 150000]), "jitter": k > 0, "unsolicited": False, "seed": rng.randrange(1 << 30), "switch_prob": rng.choice([0.05, 0.3])})
     for k in range(60 if chk.tier == "quick" else 2500):
-        cases.append({"device": f"synthetic{k}", "latency_us": rng.choice([0, 20000, 99000, 150000, 400000]), "jitter": rng.random() < 0.5, "unsolicited": rng.random() < 0.5, "seed": rng.randrange(1 << 30), "switch_prob": rng.choice([0.05, 0.3, 0.6])})
+        cases.append({"device": f"synthetic{k}", "latency_us": rng.choice([0, 20000, 99000, 150000, 400000]), "jitter": rng.random() < 0.5, "unsolicited": rng.random() < 0.5, "seed": rng.randrange(1 << 30), "switch_prob": rng.choice([0.05, 0.3, 0.6]), "check_first": k % 4 == 0})
     sessions = []
     dist = {"sessions": 0, "recorded": 0, "synthetic": 0, "subunits_exposed": 0, "wire_lines": 0}
     for c in cases:
